@@ -7,3 +7,9 @@ func raceEnable()  {}
 
 // RaceEnabled reports whether the binary was built with the race detector.
 const RaceEnabled = false
+
+// RaceDisable is a no-op without the race detector.
+func RaceDisable() {}
+
+// RaceEnable is a no-op without the race detector.
+func RaceEnable() {}
